@@ -22,6 +22,13 @@
 
 #include "h_proto.h"
 #include "ref_adapt.c" /* white box: static ref_adapt_parameter */
+/* white box ref_collapse.c with ref_cell_node_list_around redirected: its only caller there is
+   ref_collapse_to_remove_node1, so every call is one removal ATTEMPT of ref_collapse_pass (accepted or not) */
+static REF_STATUS h_spy_node_list_around(REF_CELL ref_cell, REF_INT node, REF_INT max_node, REF_INT *nnode,
+                                         REF_INT *node_list);
+#define ref_cell_node_list_around h_spy_node_list_around
+#include "ref_collapse.c"
+#undef ref_cell_node_list_around
 
 #include "ref_fixture.h"
 #include "ref_swap.h"
@@ -33,6 +40,28 @@ static REF_MPI ref_mpi;
 static void pf(double d) {
   fputc(' ', out);
   h_pf(out, d);
+}
+
+static REF_GRID spy_grid = NULL;
+static int spy_count = 0;
+static REF_STATUS h_spy_node_list_around(REF_CELL ref_cell, REF_INT node, REF_INT max_node, REF_INT *nnode,
+                                         REF_INT *node_list) {
+  REF_STATUS st = ref_cell_node_list_around(ref_cell, node, max_node, nnode, node_list);
+  /* 3-D only: there the attempt is the one call on the tet group (ref_collapse_edge_manifold asks the tri group);
+     on planar grids the work list can be stale (see Drivers/Unit.lean, record CB) and nothing is recorded */
+  if (NULL != spy_grid && REF_SUCCESS == st && spy_count < 4000 && !ref_grid_twod(spy_grid) &&
+      !ref_grid_surf(spy_grid) && ref_cell == ref_grid_tet(spy_grid)) {
+    REF_INT i;
+    REF_DBL r, mn = 2.0 * ref_grid_adapt(spy_grid, collapse_ratio);
+    for (i = 0; i < *nnode; i++)
+      if (REF_SUCCESS == ref_node_ratio(ref_grid_node(spy_grid), node_list[i], node, &r)) mn = MIN(mn, r);
+    spy_count++;
+    fprintf(out, "CT %d", ref_grid_twod(spy_grid) ? 2 : 3);
+    pf(mn);
+    pf(ref_grid_adapt(spy_grid, collapse_ratio));
+    fprintf(out, "\n");
+  }
+  return st;
 }
 
 static int is_hex16(const char *s) { return 16 == strlen(s) && 16 == strspn(s, "0123456789abcdefABCDEF"); }
@@ -789,6 +818,8 @@ static void run_level(void) {
     for (k = 0; k < 16; k++) rec_count[k] = rec_on[k] = 0;
     rec_total = 0;
     ref_verif_op_fcn = my_op;
+    spy_grid = g;
+    spy_count = 0;
     for (p = h_w[6]; *p && REF_SUCCESS == s; p++) {
       switch (*p) {
         case 'a': s = ref_adapt_pass(g, &all_done); break;
@@ -800,6 +831,7 @@ static void run_level(void) {
       }
     }
     ref_verif_op_fcn = NULL;
+    spy_grid = NULL;
     fprintf(out, "done %s nrec=%d nnode=%d split=%d collapse=%d swap=%d smooth=%d cavity=%d\n", h_status(s), rec_total,
             ref_node_n(ref_node), rec_count[1], rec_count[2], rec_count[3], rec_count[4] + rec_count[5] + rec_count[6],
             rec_count[7]);
